@@ -264,4 +264,27 @@ theorem pending_antitone {w L : Nat} {s s' : Sys} (hs : Steps s s') :
       omega
     · rw [apply_thr_other _ _ _ _ hi]; exact ih
 
+/-- let thread `i` take up to `n` steps (used to exhibit concrete reachable states) -/
+def fireN (s : Sys) (i : Nat) : Nat → Sys
+  | 0 => s
+  | n + 1 =>
+    match fire s i with
+    | some s' => fireN s' i n
+    | none => s
+
+theorem Steps.trans {s t u : Sys} (h₁ : Steps s t) (h₂ : Steps t u) : Steps s u := by
+  induction h₂ with
+  | refl => exact h₁
+  | tail _ hst ih => exact .tail ih hst
+
+theorem fireN_steps (s : Sys) (i n : Nat) : Steps s (fireN s i n) := by
+  induction n generalizing s with
+  | zero => exact .refl _
+  | succ n ih =>
+    simp only [fireN]
+    split
+    · rename_i s' hf
+      exact Steps.trans (.tail (.refl _) ⟨i, hf⟩) (ih s')
+    · exact .refl _
+
 end Rtr.Locks
